@@ -76,6 +76,7 @@ def reqKind? : String → Option Kind
   | "setupchan" => some .setup_channel
   | "signonchain" => some .unchecked_sign_onchain_tx
   | "addblock" => some .add_block
+  | "rmblock" => some .remove_block
   | s => Kind.ofString? s
 
 def allowed (ks : List Kind) (h c : Cls) : Bool := ks.any (fun k => (edges k).contains (h, c))
